@@ -35,7 +35,7 @@ class AoTrace:
         t = Table(spec["parent"], init=spec["init"], react=react, budget=20000)
         t.raw = []
         use(t, "spied")
-        a = ao_mod.ActiveObject(name="ao")
+        a = ao_mod.ActiveObject(name=None if p.get("unnamed") else "ao")
         live = []
         a.live_trace = bool(p.get("live_trace"))
         a.register_live_trace_callback(live.append)
@@ -75,7 +75,7 @@ class AoTrace:
         # what happened, from the handlers' own log: the configuration after start and every (signal, TRAN) step
         return {"records": [(x[1], x[2], x[3]) for x in recs], "no_timestamp": sum(1 for x in recs if x[0] is None),
                 "raw": list(t.raw), "text": text, "text_error": err, "names": names,
-                "rendered": None if any(x[0] is None for x in recs) else "\n" + "".join(instr.fmt_trace(x, "ao") for x in recs),
+                "rendered": None if any(x[0] is None for x in recs) else "\n" + "".join(instr.fmt_trace(x, a.name) for x in recs),
                 "live": list(live), "thread_exceptions": [x[:3] for x in s.thread_exceptions]}
 
     def on_abort(self, s, p):
@@ -149,6 +149,7 @@ def run_into(res, tier):
                 for base, _ in gen(f):
                     for pre in PRE:
                         ps.append({"spec": hsmrun.dump(hsmrun.norm(base)), "pre": [list(x) for x in pre]})
+                    ps.append({"spec": hsmrun.dump(hsmrun.norm(base)), "pre": [], "unnamed": True})
     jobs = ncpu()
     chunks = [ps[i::jobs * 4] for i in range(jobs * 4)]
     outs = pmap(work, [c for c in chunks if c], jobs)
